@@ -2,7 +2,7 @@
 
 E-hist over insertion histories:
  (A) every permutation of the insertion order of every subset (<=5/6 of 7) of distinct properties (canonical-order
-     names, X- names, mixed letter case) on Event / Calendar / Timezone / Todo / unknown component: all histories reaching the
+     names, X- names, mixed letter case) on Event / Calendar / Timezone / Todo / Journal (names that tie under numeric-aware or separator-insensitive keys) / unknown component: all histories reaching the
      same set give identical bytes (state reached one way vs. another); with sorted=False the lines appear exactly in
      insertion order;
  (B) the same for every permutation of <=4 parameters on a property;
@@ -24,19 +24,21 @@ from zoneinfo import ZoneInfo
 from mc import env  # noqa: F401
 from mc.snapshot import params_of, pyval
 
-from icalendar.cal import Event, Calendar, Timezone, Todo, Alarm, Component, TimezoneStandard, FreeBusy
+from icalendar.cal import Event, Calendar, Timezone, Todo, Alarm, Component, TimezoneStandard, FreeBusy, Journal
 from icalendar.prop import (vText, vInt, vFloat, vBoolean, vBinary, vUri, vCalAddress, vDDDTypes, vDatetime, vDate,
                             vDuration, vPeriod, vDDDLists, vCategory, vRecur, vGeo, vUTCOffset, vTime, vInline)
 from icalendar.parser import Parameters, Contentline
 
 BERLIN = ZoneInfo("Europe/Berlin")
-CLASSES = {"VEVENT": Event, "VCALENDAR": Calendar, "VTIMEZONE": Timezone, "VTODO": Todo, "X-COMP": None}
+CLASSES = {"VEVENT": Event, "VCALENDAR": Calendar, "VTIMEZONE": Timezone, "VTODO": Todo, "X-COMP": None, "VJOURNAL": Journal}
 POOLS = {
     "VEVENT": ("summary", "DTSTART", "uid", "x-b", "X-A", "attendee", "Rrule"),
     "VCALENDAR": ("version", "PRODID", "x-wr-calname", "method", "X-A", "calscale", "Name"),
     "VTIMEZONE": ("tzid", "X-LIC-LOCATION", "last-modified", "tzurl", "x-a", "COMMENT", "Zzz"),
     "VTODO": ("summary", "DUE", "uid", "x-b", "X-A", "priority", "Status"),
     "X-COMP": ("b", "A", "x-c", "summary", "DTSTART", "uid", "Z"),
+    # names that tie under plausible "smarter" sort keys (numeric-aware, separator-insensitive, prefix-based)
+    "VJOURNAL": ("X-R-1", "X-R-01", "X-R-10", "X-R-2", "X-R-001", "X-R_1", "X-R-1A"),
 }
 
 
@@ -132,7 +134,7 @@ def run_props(case):
 
 
 # ---------------------------------------------------------------- (B) parameters
-PARAM_POOL = (("cn", "Max"), ("ROLE", "CHAIR"), ("x-b", "1"), ("X-A", ["p", "q;r"]), ("language", "de"))
+PARAM_POOL = (("cn", "Max"), ("ROLE", "CHAIR"), ("x-b", "1"), ("X-A", ["p", "q;r"]), ("language", "de"), ("x-r-1", "z"), ("X-R-01", "a"))
 
 
 def run_params(case):
@@ -384,7 +386,7 @@ def run(ctx):
     kmax = 5 if ctx.quick else 6
     seeds = range(8) if ctx.quick else range(64)
     ctx.rule = (f"E-hist: (A) all permutations of all subsets (<= {kmax} of 7) of distinct property names on 5 component kinds; "
-                "(A') all 144 insertion orders of a 4-level nested tree (calendar > event > alarm > unknown component) serialised with sorting on and off; (B) all permutations of all subsets of 5 parameters; (C) all 120 interleavings of 3 repeated values / 3 "
+                "(A') all 144 insertion orders of a 4-level nested tree (calendar > event > alarm > unknown component) serialised with sorting on and off; (B) all permutations of all subsets (<=4) of 7 parameters; (C) all 120 interleavings of 3 repeated values / 3 "
                 "subcomponents with 2 other properties; (D) purity on a 28-value-class menu x params x nesting x sorted flag; "
                 f"(E) BEGIN/END balance of every output; (F) {len(seeds)} PYTHONHASHSEED values, one digest over ~250 trees each. "
                 "non-trivial = at least two names/parameters or any repeated/purity case.")
